@@ -31,6 +31,7 @@ from vlib.harness import Watch, LogCapture
 from vlib.runner import Result
 
 PROPERTY = "C15"
+FAILED_REASONS = ["UPLOAD_REJECTED", "UNEXPECTED", "UPLOAD_REJECTED", "UNEXPECTED", "UPLOAD_REJECTED", None]
 LEVEL = "exploration"
 RULE = ("Histories of HS_DESC UPLOAD/UPLOADED/FAILED events over 1..4 directories of the created service "
         "interleaved with events of a foreign service on partly shared directories (UPLOAD precedes its outcome), "
@@ -223,8 +224,11 @@ def _execute(case, steps):
                     elif act == "UPLOADED":
                         ev = onionref.hs_desc("UPLOADED", addr, hsd)
                     else:
+                        # control-spec lists several REASON values for HS_DESC FAILED; for uploads tor uses
+                        # UPLOAD_REJECTED or UNEXPECTED.  Derived from the case (directory, step) - no extra draw
+                        reason = FAILED_REASONS[(dnum * 7 + i + case.get("n", 0)) % len(FAILED_REASONS)]
                         ev = onionref.hs_desc("FAILED", addr, hsd, descid=onionref.desc_id(version, dnum),
-                                              reason="UPLOAD_REJECTED")
+                                              reason=reason)
                     ref.feed(is_own, act, hsd)
                     tor.event(ev)
 
